@@ -82,8 +82,76 @@ def strategy_impl(draw, tier):
     }
 
 
+@st.composite
+def weighted_multi(draw, tier):
+    """metric_weighted stencil operations over several axes (C01's generator + 1-D metrics at every position)."""
+    from checks import C01
+
+    sub = draw(C01.strategy_impl("quick"))
+    metrics = {}
+    for a in sub["axes"]:
+        for p in a["positions"]:
+            L = gen.pos_len(a["n"], p)
+            metrics[gen.dim_name(a["name"], p)] = draw(st.lists(st.integers(1, 24).map(lambda k: k / 4.0), min_size=L, max_size=L))
+    spelling = draw(st.sampled_from(["dict", "dict", "tuple-all"]))
+    return {"kind": "weighted-multi", "sub": sub, "metrics": metrics, "mw_spelling": spelling}
+
+
 def strategy(tier):
-    return strategy_impl(tier)
+    return st.one_of(strategy_impl(tier), strategy_impl(tier), strategy_impl(tier), weighted_multi(tier))
+
+
+def check_weighted_multi(case, ctx):
+    import xarray as xr
+
+    from checks import C01
+
+    sub = case["sub"]
+    axes = sub["axes"]
+    names = [a["name"] for a in axes]
+    by_name = {a["name"]: a for a in axes}
+    shape = np.shape(sub["values"])
+    ds = build.make_dataset(axes, [(d, s) for d, s in zip(sub["dims"], shape) if d.startswith("e")])
+    for d, vals in case["metrics"].items():
+        ds["m_" + d] = xr.DataArray(np.asarray(vals, dtype=np.float64), dims=[d])
+    metrics_arg = {(a["name"],): ["m_" + gen.dim_name(a["name"], p) for p in a["positions"]] for a in axes}
+    grid = must_return("Grid construction", build.make_grid, ds, axes, metrics=metrics_arg, **build.grid_kwargs(sub["grid"]))
+    g_rules, g_fills = M.grid_level_rule(names, sub["grid"]["periodic"], sub["grid"]["boundary"], sub["grid"]["fill_value"])
+    rules, fills = M.rule_in_force(names, g_rules, g_fills, sub["call_boundary"], sub["call_fill"])
+    targets = {n: (sub["to"][n] if sub["to"] is not None else M.default_target(by_name[n]["positions"], sub["data_pos"][n], by_name[n]["default_shifts"]))
+               for n in sub["op_axes"]}
+    a = np.asarray(sub["values"], dtype=np.float64)
+    dims = list(sub["dims"])
+
+    def bc(vec, k, nd):
+        shp = [1] * nd
+        shp[k] = len(vec)
+        return np.asarray(vec, dtype=np.float64).reshape(shp)
+
+    for n in sub["op_axes"]:
+        frm, to = sub["data_pos"][n], targets[n]
+        k = dims.index(gen.dim_name(n, frm))
+        a = a * bc(case["metrics"][dims[k]], k, a.ndim)
+        a = M.stencil(a, k, by_name[n]["n"], frm, to, sub["op"], rules[n], fills[n])
+        dims[k] = gen.dim_name(n, to)
+        a = a / bc(case["metrics"][dims[k]], k, a.ndim)
+    da = build.data_array(sub["values"], sub["dims"], name="phi")
+    kw = C01.call_kwargs(sub, sub["to"])
+    if case["mw_spelling"] == "dict":
+        mw = {n: (n,) for n in sub["op_axes"]}
+    else:
+        # one spelling for every axis is only the same request when a single axis is operated
+        mw = {n: (n,) for n in sub["op_axes"]} if len(sub["op_axes"]) > 1 else (sub["op_axes"][0],)
+    got = must_return(f"Grid.{sub['op']}(metric_weighted)", getattr(grid, sub["op"]), da, C01.spell_axis(sub["op_axes"], sub["axis_spelling"]),
+                      metric_weighted=mw, **kw)
+    if list(got.dims) != dims:
+        raise Violation("metric_weighted operation: dims differ", got=list(got.dims), expected=dims)
+    gv = np.asarray(got.values)
+    scale = max(1.0, float(np.abs(a).max(initial=0)))
+    if gv.shape != a.shape or not np.allclose(gv, a, rtol=1e-12, atol=1e-12 * scale):
+        raise Violation("metric_weighted operation over several axes is not op(data*metric)/metric(result position) axis by axis",
+                        op=sub["op"], axes=sub["op_axes"], targets=targets)
+    return {"nontrivial": len(sub["op_axes"]) >= 1, "classes": ["kind:weighted-multi", f"op:{sub['op']}", f"naxes:{len(sub['op_axes'])}"]}
 
 
 def metric_array(entry):
@@ -167,6 +235,8 @@ def matches(got, cand):
 def check(case, ctx):
     import xarray as xr
 
+    if case.get("kind") == "weighted-multi":
+        return check_weighted_multi(case, ctx)
     axes = case["axes"]
     names = [a["name"] for a in axes]
     by = {a["name"]: a for a in axes}
